@@ -134,6 +134,11 @@ DoDropBlocker(s, c, b) == Res(Push(EDecref(c, b), s), {})
 DoHardref(s, r)        == Res(Push(EHardref(r), s), {})
 DoBackref(s, c, p)     == Res(Push(EBackref(c, p), s), {})
 DoBacktrack(s, pos)    == Res(BacktrackTo(s, pos), {})
+(* A rollback to pos that is interrupted (KeyboardInterrupt, MemoryError ...) at the moment entry
+   number stop (pos < stop <= Len(plan)) is about to be reverted: the entries after stop are undone
+   and pruned, entry stop and everything before it stay (plan_state.backtrack prunes "what has been
+   finished, and just that"), so the state is again the replay of the plan that remains.           *)
+DoBacktrackCut(s, pos, stop) == Res(BacktrackTo(s, stop), {})
 
 (* Plans are compared up to the order of decref entries inside one run of decrefs: that
    order is the list order of rev_blockers, which the property treats as a bag.        *)
